@@ -416,3 +416,50 @@ Example C15_same_step_kick_example :
   ys gen_dyn_apply = [[(31 # 8)%Q]] /\ ys late_calc_body = [[(39 # 8)%Q]] /\
   grid_kick gen_dyn_apply = grid_kick late_calc_body.
 Proof. vm_compute. repeat split; reflexivity. Qed.
+
+(** ** which applyTo body moves the particles: the virtual dispatch of `<map>->applyToAll(trackme)` *)
+From Coq Require Import String.
+From Inovesa Require Import Proofs.TrackDispatchP.
+
+(** every class main() stores in a variable it calls `->applyToAll(trackme)` on (Gen_Track.gen_tracked_classes) runs - by the
+    class declarations of inc/SM/*.hpp (Gen_Track.gen_applyTo_dispatch: the nearest class up to SourceMap declaring applyTo) -
+    the applyTo body of its kind: KickMap::applyTo for wake kick, RF kick and drift, FokkerPlanckMap::applyTo for the
+    Fokker-Planck map (or it is Identity, the disabled map, whose body is empty); and that body is one Gen_Track holds,
+    i.e. one the theorems above are about *)
+Theorem C15_tracked_maps_run_the_generated_applyTo :
+  forall m c, In (m, c) gen_tracked_classes ->
+    (dispatch_of c = Some (body_of_kind m) \/ (c = "Identity"%string /\ dispatch_of c = Some "Identity"%string)) /\
+    (forall b, dispatch_of c = Some b -> In b gen_applyTo_read).
+Proof. exact tracked_maps_run_the_generated_applyTo. Qed.
+Print Assumptions C15_tracked_maps_run_the_generated_applyTo.
+
+(** no kick-type map has a particle transport of its own: WakePotentialMap, RFKickMap, DynamicRFKickMap, DriftMap are all
+    tracked by KickMap::applyTo (gen_kick_x / gen_kick_y), which reads nothing but the map's `_offset` *)
+Theorem C15_kick_maps_run_KickMap_applyTo :
+  forall m c, In (m, c) gen_tracked_classes -> kick_kind m = true -> c <> "Identity"%string ->
+    dispatch_of c = Some "KickMap"%string.
+Proof. exact kick_maps_run_KickMap_applyTo. Qed.
+Print Assumptions C15_kick_maps_run_KickMap_applyTo.
+
+(** the time-dependent RF map is among them, and the `_offset` its particles read in a step is that of the state right after
+    the same step's DynamicRFKickMap::apply - the table the grid has just been kicked with
+    (C15_particles_get_the_same_steps_kick) *)
+Theorem C15_dynrf_particles_read_the_applied_table :
+  forall sin G kickmap m,
+    In (MRF, "DynamicRFKickMap"%string) gen_tracked_classes /\
+    dispatch_of "DynamicRFKickMap" = Some "KickMap"%string /\
+    dispatch_of "RFKickMap" = Some "KickMap"%string /\
+    forall n (sp : @DynRF.st QcF G * list pos),
+      let sp' := dyn_track_step sin G kickmap m n gen_dyn_calckick_args gen_dyn_apply sp in
+      fst sp' = dyn_apply sin G kickmap m gen_dyn_calckick_args gen_dyn_apply (fst sp) /\
+      snd sp' = applyToAll n (OpKick false (getQ (DynRF.offs (fst sp')))) (snd sp).
+Proof. exact dynrf_particles_read_the_applied_table. Qed.
+Print Assumptions C15_dynrf_particles_read_the_applied_table.
+
+(** non-vacuity: the table has the entries the statements are about *)
+Example C15_dispatch_example :
+  dispatch_of "DriftMap" = Some "KickMap"%string /\ dispatch_of "WakePotentialMap" = Some "KickMap"%string /\
+  dispatch_of "FokkerPlanckMap" = Some "FokkerPlanckMap"%string /\
+  In (MRF, "RFKickMap"%string) gen_tracked_classes /\ In (MDrift, "DriftMap"%string) gen_tracked_classes /\
+  In (MWake, "WakePotentialMap"%string) gen_tracked_classes.
+Proof. vm_compute. tauto. Qed.
